@@ -215,6 +215,12 @@ func (d *Object) UnmarshalJSON(data []byte) error {
 	if d.payload == nil {
 		return ErrUnknownSchema
 	}
+	if _, ok := d.payload.(*Object); ok {
+		// the schema of this very wrapper: decoding the data into another
+		// object would never end
+		d.payload = nil
+		return ErrUnknownSchema
+	}
 	if err := json.Unmarshal(data, d.payload); err != nil {
 		return err
 	}
